@@ -8,6 +8,7 @@ import (
 	"fmt"
 	"net"
 	"os"
+	"strings"
 	"sync"
 	"sync/atomic"
 	"syscall"
@@ -16,6 +17,7 @@ import (
 	"unsafe"
 
 	"github.com/samaritan-proxy/samaritan/cmd/samaritan/hotrestart"
+	"github.com/samaritan-proxy/samaritan/utils/verifpoint"
 	"pgregory.net/rapid"
 
 	"verif/harness/vh"
@@ -69,8 +71,8 @@ func socketpair() (*net.UnixConn, *net.UnixConn, error) {
 // ---- frames
 
 type frameCase struct {
-	Raw      []byte `json:"raw,omitempty"`  // hostile: raw bytes written in one write (<= 4096)
-	Type     uint8  `json:"type"`           // well-formed: sent through the real sendMessage
+	Raw      []byte `json:"raw,omitempty"` // hostile: raw bytes written in one write (<= 4096)
+	Type     uint8  `json:"type"`          // well-formed: sent through the real sendMessage
 	Payload  []byte `json:"payload,omitempty"`
 	WellForm bool   `json:"well_formed"`
 }
@@ -288,21 +290,30 @@ func (s *scripted) snapshot() []string {
 var idCounter int64
 var killMu sync.Mutex
 
+// outq returns the number of bytes written to c that the peer has not consumed yet (SIOCOUTQ), -1 when it cannot tell.
 func outq(c *net.UnixConn) int {
 	rc, err := c.SyscallConn()
 	if err != nil {
 		return -1
 	}
 	v := int32(-1)
-	rc.Control(func(fd uintptr) {
-		syscall.Syscall(syscall.SYS_IOCTL, fd, 0x5411 /* SIOCOUTQ */, uintptr(unsafe.Pointer(&v)))
-	})
+	var errno syscall.Errno
+	if err := rc.Control(func(fd uintptr) {
+		_, _, errno = syscall.Syscall(syscall.SYS_IOCTL, fd, 0x5411 /* SIOCOUTQ */, uintptr(unsafe.Pointer(&v)))
+	}); err != nil || errno != 0 {
+		atomic.AddInt64(&outqFailures, 1)
+		return -1
+	}
 	return int(v)
 }
 
+var outqFailures int64
+
+// waitConsumed waits until the peer has read everything written so far. Only a definite 0 counts: an ioctl that fails
+// (interrupted under load) says nothing, and writing the next frame too early lets the peer read two frames as one.
 func waitConsumed(c *net.UnixConn) bool {
 	for i := 0; i < 5000; i++ {
-		if outq(c) <= 0 {
+		if outq(c) == 0 {
 			return true
 		}
 		time.Sleep(time.Millisecond)
@@ -347,13 +358,39 @@ func checkSeq(c seqCase) (nt bool, v *verdict) {
 	}()
 	var want []string
 	addr := &net.UnixAddr{Name: fmt.Sprintf("@sam_domain_socket_%d", inst.id), Net: "unix"}
+	// The control socket is a stream: a frame written while the parent is still inside the read that took the previous one
+	// can be appended to that read (the kernel keeps copying while data is queued), and the two frames are parsed as one.
+	// "The previous frame left the send queue" (SIOCOUTQ == 0) does not exclude that, so every frame is written only after
+	// the parent came back to its read call: the pause point before the read counts the parent's reads.
+	var reads int64
+	verifpoint.SetHandler(func(name string, arg interface{}) {
+		if name == "hotrestart.child.before-read" {
+			atomic.AddInt64(&reads, 1)
+		}
+	})
+	defer verifpoint.SetHandler(nil)
 	for ci, ch := range c.Children {
+		base, sent := atomic.LoadInt64(&reads), int64(0)
+		parentReady := func() bool {
+			for i := 0; i < 10000; i++ {
+				if atomic.LoadInt64(&reads) >= base+1+sent {
+					return true
+				}
+				time.Sleep(500 * time.Microsecond)
+			}
+			return false
+		}
 		conn, err := net.DialUnix("unix", nil, addr)
 		if err != nil {
 			return nt, &verdict{"child-cannot-connect", fmt.Sprintf("child %d: %v", ci, err)}
 		}
 		for si, st := range ch.Steps {
 			where := fmt.Sprintf("child %d step %d (%s)", ci, si, st.Kind)
+			if !parentReady() {
+				conn.Close()
+				return nt, &verdict{"parent-stuck", fmt.Sprintf("%s: the parent did not come back to read the next frame within 5s\n%s", where, vh.Stacks())}
+			}
+			sent++
 			var raw []byte
 			if st.Kind == "malformed" {
 				raw = st.Raw
@@ -389,7 +426,13 @@ func checkSeq(c seqCase) (nt bool, v *verdict) {
 			n, err := conn.Read(buf)
 			if err != nil {
 				conn.Close()
-				return nt, &verdict{"no-reply", fmt.Sprintf("%s: no reply: %v (instance calls so far %v)", where, err, inst.snapshot())}
+				st := ""
+				for _, g := range strings.Split(vh.Stacks(), "\n\n") {
+					if strings.Contains(g, "hotrestart.") {
+						st += g + "\n\n"
+					}
+				}
+				return nt, &verdict{"no-reply", fmt.Sprintf("%s: no reply: %v (instance calls so far %v; outq now %d)\n%s", where, err, inst.snapshot(), outq(conn), st)}
 			}
 			wantReply := reqType(st.Kind, st.Type) + 1
 			if st.Kind == "unknown" {
@@ -418,6 +461,7 @@ func checkSeq(c seqCase) (nt bool, v *verdict) {
 		if len(ch.Steps) == 0 || ci < len(c.Children)-1 {
 			nt = nt || ci < len(c.Children)-1
 		}
+		parentReady() // the count is stable before the next child samples it
 		conn.Close()
 	}
 	// all requests whose reply was not awaited must still be performed: wait for the calls to settle
@@ -491,6 +535,9 @@ func TestSequences(t *testing.T) {
 			vh.Fail(t, vh.Failure{Property: prop, Part: "sequences", Signature: v.sig, Message: v.msg, Case: c})
 		}
 		vh.Rec().Case("sequences", nt, vh.JSON(c))
+		if n := atomic.SwapInt64(&outqFailures, 0); n > 0 {
+			vh.Rec().ClassN("sequences", "outq_ioctl_failed_polls", n)
+		}
 		vh.Rec().Sample("sequences", nt, func() interface{} { return c })
 	})
 }
